@@ -250,8 +250,18 @@ func (x *ScheduleSettings) toInternal() (c *filter.ConfigSchedule, err error) {
 		return nil, fmt.Errorf("loading timezone: %w", err)
 	}
 
-	w := x.WeeklyRange
-	days := []*DayRange{w.Sun, w.Mon, w.Tue, w.Wed, w.Thu, w.Fri, w.Sat}
+	// Use the nil-safe getters, since the weekly range is a message and may be
+	// absent, which in proto3 means a range with no days set.
+	w := x.GetWeeklyRange()
+	days := []*DayRange{
+		w.GetSun(),
+		w.GetMon(),
+		w.GetTue(),
+		w.GetWed(),
+		w.GetThu(),
+		w.GetFri(),
+		w.GetSat(),
+	}
 	for i, d := range days {
 		if d == nil {
 			continue
